@@ -261,7 +261,7 @@ func (g *G) randAtom(countOnly bool) Atom {
 			}
 		}
 	case "minInclusive", "minExclusive", "maxInclusive", "maxExclusive":
-		a.Arg = i64p(int64(g.n(7) - 2))
+		a.Arg = i64p(g.intValue())
 	case "lessThanProperty", "lessThanOrEqualsToProperty", "equalsToProperty", "disjointWithProperty", "moreThanProperty", "moreThanOrEqualsToProperty":
 		// node objects (reached by a final inverse step) compare structurally in OPA; not modelled
 		q := noInverse(g.path(g.n(2)))
@@ -311,6 +311,8 @@ func genC01Graph(g *G, id int, countOnly bool) C01Case {
 // Stream "atoms": every atom alone and under `not`, to tie the per-constraint semantics.
 func genC01Atoms(g *G, id int) C01Case {
 	c := C01Case{Op: "c01", Id: id, Stream: "atoms"}
+	bigInts = id%3 == 2
+	defer func() { bigInts = false }()
 	nAtoms := 2 + g.n(3)
 	for j := 0; j < nAtoms; j++ {
 		c.Atoms = append(c.Atoms, g.randAtom(false))
@@ -319,6 +321,12 @@ func genC01Atoms(g *G, id int) C01Case {
 			Validation{Name: fmt.Sprintf("n%d", j), Class: NS + "T", Rule: Rule{Not: &Rule{Atom: ip(j)}}})
 	}
 	c.Graph = g.graph(3+g.n(5), 0.45)
+	if bigInts {
+		// numeric constraints and comparisons over the big values: make sure some atoms are numeric
+		p0, p1 := PP(g.pick(propPool), false), PP(g.pick(propPool), false)
+		c.Atoms[0] = Atom{Kind: g.pick([]string{"minInclusive", "minExclusive", "maxInclusive", "maxExclusive"}), Path: p0, Arg: i64p(g.intValue())}
+		c.Atoms[1] = Atom{Kind: g.pick([]string{"lessThanProperty", "lessThanOrEqualsToProperty", "equalsToProperty", "moreThanProperty"}), Path: p0, Other: &p1}
+	}
 	return c
 }
 
